@@ -300,3 +300,143 @@ Theorem model_is_source_C11_Poly : forall A : Arith, @SrcEqPoly.model_is_source_
 Proof. intros A. exact SrcEqPoly.model_is_source_Poly_lemma. Qed.
 Check model_is_source_C11_Poly : forall A : Arith, @SrcEqPoly.model_is_source_Poly A.
 Print Assumptions model_is_source_C11_Poly.
+(* ---- tie of the model to the source of this run (package r2c2): gen/SrcWrapPoly.v is regenerated on every check run from
+   src/polynomial/{arithmetic,mod}.rs: the consuming operator forms, Index, empty, new, quadratic, cubic, size, degree, Clone;
+   Proofs/SrcEqWrapPoly.v proves each regenerated function equal to its hand-written model. *)
+From OV Require Proofs.SrcEqWrapPoly.
+Theorem model_is_source_C11_WrapPoly : forall A : Arith, @SrcEqWrapPoly.model_is_source_WrapPoly A.
+Proof. intros A. exact SrcEqWrapPoly.model_is_source_WrapPoly_lemma. Qed.
+Check model_is_source_C11_WrapPoly : forall A : Arith, @SrcEqWrapPoly.model_is_source_WrapPoly A.
+Print Assumptions model_is_source_C11_WrapPoly.
+(* ======================================================================================================
+   C11 (polynomial ring and calculus laws), rounding half -- package round.  Append to Props/C11.v.
+   Horner evaluation "to rounding accuracy": Model/Poly.v [peval] in the STANDARD MODEL of floating-point arithmetic
+   (the same Gallina [peval] at ARm): the computed value is the exact value of a polynomial whose coefficients are
+   perturbed relatively by at most gam (2d), d = degree; hence |fl(p(x)) - p(x)| <= gam (2d) Sum |a_i| |x|^i
+   (Higham, Accuracy and Stability of Numerical Algorithms, (5.3)), for every degree with 2 d u < 1.
+   Unproved remainder: this is the a priori bound; the running (a posteriori) error bound of Higham Alg. 5.1 belongs to
+   an algorithm the code does not contain.  The standard model itself for IEEE binary64 is not re-proved here.
+   ====================================================================================================== *)
+From Coq Require Import Reals Lra Lia.
+From OV Require Import Base.RoundModel Proofs.RoundPoly Proofs.RoundFlx.
+
+Theorem peval_backward_error : forall (u : R), (0 <= u < 1)%R ->
+  forall (fadd fsub fmul fdiv : R -> R -> R),
+  (forall x y : R, exists d : R, (Rabs d <= u)%R /\ fadd x y = ((x + y) * (1 + d))%R) ->
+  (forall x y : R, exists d : R, (Rabs d <= u)%R /\ fmul x y = (x * y * (1 + d))%R) ->
+  forall (p : list R) (x r : R),
+  (INR (2 * (length p - 1)) * u < 1)%R -> peval (A := ARm fadd fsub fmul fdiv) p x = Ok r ->
+  exists th : nat -> R,
+    (forall i, (i < length p)%nat -> (Rabs (th i) <= gam u (2 * (length p - 1)))%R) /\
+    r = Rsum (length p) (fun i => (nth i p 0 * (1 + th i) * x ^ i)%R).
+Proof. intros u Hu fadd fsub fmul fdiv Ha Hm p x r. exact (peval_backward_error_lemma u Hu fadd fsub fmul fdiv Ha Hm p x r). Qed.
+Check peval_backward_error : forall (u : R), (0 <= u < 1)%R ->
+  forall (fadd fsub fmul fdiv : R -> R -> R),
+  (forall x y : R, exists d : R, (Rabs d <= u)%R /\ fadd x y = ((x + y) * (1 + d))%R) ->
+  (forall x y : R, exists d : R, (Rabs d <= u)%R /\ fmul x y = (x * y * (1 + d))%R) ->
+  forall (p : list R) (x r : R),
+  (INR (2 * (length p - 1)) * u < 1)%R -> peval (A := ARm fadd fsub fmul fdiv) p x = Ok r ->
+  exists th : nat -> R,
+    (forall i, (i < length p)%nat -> (Rabs (th i) <= gam u (2 * (length p - 1)))%R) /\
+    r = Rsum (length p) (fun i => (nth i p 0 * (1 + th i) * x ^ i)%R).
+Print Assumptions peval_backward_error.
+(* 1 + 2x + 3x^2 at x = 2 in the arithmetic that rounds every operation to 53 bits *)
+Example peval_backward_error_nonvacuous :
+  (0 <= ux < 1)%R /\
+  (forall x y : R, exists d : R, (Rabs d <= ux)%R /\ xadd x y = ((x + y) * (1 + d))%R) /\
+  (forall x y : R, exists d : R, (Rabs d <= ux)%R /\ xmul x y = (x * y * (1 + d))%R) /\
+  (INR (2 * (length [1%R; 2%R; 3%R] - 1)) * ux < 1)%R /\
+  exists r, peval (A := AFlx) [1%R; 2%R; 3%R] 2%R = Ok r.
+Proof.
+  split; [exact ux_range|]. split; [exact xadd_ok|]. split; [exact xmul_ok|].
+  split; [cbn [length Nat.sub Nat.mul Nat.add INR]; pose proof ux_small; lra|eexists; reflexivity].
+Qed.
+
+Theorem peval_forward_error : forall (u : R), (0 <= u < 1)%R ->
+  forall (fadd fsub fmul fdiv : R -> R -> R),
+  (forall x y : R, exists d : R, (Rabs d <= u)%R /\ fadd x y = ((x + y) * (1 + d))%R) ->
+  (forall x y : R, exists d : R, (Rabs d <= u)%R /\ fmul x y = (x * y * (1 + d))%R) ->
+  forall (p : list R) (x r : R),
+  (INR (2 * (length p - 1)) * u < 1)%R -> peval (A := ARm fadd fsub fmul fdiv) p x = Ok r ->
+  (Rabs (r - Rsum (length p) (fun i => nth i p 0 * x ^ i))
+     <= gam u (2 * (length p - 1)) * Rsum (length p) (fun i => Rabs (nth i p 0) * Rabs x ^ i))%R.
+Proof. intros u Hu fadd fsub fmul fdiv Ha Hm p x r. exact (peval_forward_error_lemma u Hu fadd fsub fmul fdiv Ha Hm p x r). Qed.
+Check peval_forward_error : forall (u : R), (0 <= u < 1)%R ->
+  forall (fadd fsub fmul fdiv : R -> R -> R),
+  (forall x y : R, exists d : R, (Rabs d <= u)%R /\ fadd x y = ((x + y) * (1 + d))%R) ->
+  (forall x y : R, exists d : R, (Rabs d <= u)%R /\ fmul x y = (x * y * (1 + d))%R) ->
+  forall (p : list R) (x r : R),
+  (INR (2 * (length p - 1)) * u < 1)%R -> peval (A := ARm fadd fsub fmul fdiv) p x = Ok r ->
+  (Rabs (r - Rsum (length p) (fun i => nth i p 0 * x ^ i))
+     <= gam u (2 * (length p - 1)) * Rsum (length p) (fun i => Rabs (nth i p 0) * Rabs x ^ i))%R.
+Print Assumptions peval_forward_error.
+Example peval_forward_error_nonvacuous :   (* same instance *)
+  (0 <= ux < 1)%R /\ (INR (2 * (length [1%R; 2%R; 3%R] - 1)) * ux < 1)%R /\
+  exists r, peval (A := AFlx) [1%R; 2%R; 3%R] 2%R = Ok r.
+Proof.
+  split; [exact ux_range|].
+  split; [cbn [length Nat.sub Nat.mul Nat.add INR]; pose proof ux_small; lra|eexists; reflexivity].
+Qed.
+
+(* ---- the same at the PRIMITIVE-FLOAT instance (IEEE binary64, u = 2^-53), through Flocq: no hypothesis about rounding
+   remains; the result must be finite and no product acc * x of the Horner loop may underflow ([horner_partial p x k] is
+   the accumulator after k steps, a float expression in p and x) ---- *)
+From Coq Require Import Floats.
+From OV Require Import Inst.FloatInst Proofs.ComplexRound Proofs.RoundDotFloat Proofs.RoundPolyFloat.
+
+Theorem peval_backward_error_float : forall (p : list PrimFloat.float) (x r : PrimFloat.float),
+  peval (A := AF) p x = Ok r -> ffinite r ->
+  (forall k, (k < length p - 1)%nat -> no_underflow (FR (horner_partial p x k) * FR x)%R) ->
+  (INR (2 * (length p - 1)) * u64 < 1)%R ->
+  exists th : nat -> R,
+    (forall i, (i < length p)%nat -> (Rabs (th i) <= g64 (2 * (length p - 1)))%R) /\
+    FR r = Rsum (length p) (fun i => (FR (nth i p 0%float) * (1 + th i) * FR x ^ i)%R).
+Proof. exact peval_backward_error_float_lemma. Qed.
+Check peval_backward_error_float : forall (p : list PrimFloat.float) (x r : PrimFloat.float),
+  peval (A := AF) p x = Ok r -> ffinite r ->
+  (forall k, (k < length p - 1)%nat -> no_underflow (FR (horner_partial p x k) * FR x)%R) ->
+  (INR (2 * (length p - 1)) * u64 < 1)%R ->
+  exists th : nat -> R,
+    (forall i, (i < length p)%nat -> (Rabs (th i) <= g64 (2 * (length p - 1)))%R) /\
+    FR r = Rsum (length p) (fun i => (FR (nth i p 0%float) * (1 + th i) * FR x ^ i)%R).
+Print Assumptions peval_backward_error_float.
+(* 1 + c x + 3 x^2 at x = 0.5 with c the double nearest 0.1: the sum 1.5 + c is inexact *)
+Example peval_backward_error_float_nonvacuous :
+  let p := [1%float; 0x1.999999999999ap-4%float; 3%float] in let x := 0.5%float in
+  (exists r, peval (A := AF) p x = Ok r /\ ffinite r) /\
+  (forall k, (k < length p - 1)%nat -> no_underflow (FR (horner_partial p x k) * FR x)%R) /\
+  (INR (2 * (length p - 1)) * u64 < 1)%R.
+Proof.
+  cbn zeta. split; [eexists; split; [reflexivity|apply ffinite_SF; reflexivity]|]. split.
+  - assert (Eh : FR 0.5%float = (/ 2)%R) by fr_eval. assert (E3 : FR 3%float = 3%R) by fr_eval.
+    assert (B : (1 <= FR (3 * 0.5 + 0x1.999999999999ap-4)%float <= 2)%R) by (split; fr_eval).
+    intros [|[|k]] Hk; cbn in Hk; try lia; apply no_underflow_ge_small.
+    + change (horner_partial [1%float; 0x1.999999999999ap-4%float; 3%float] 0.5%float 0) with 3%float.
+      rewrite Eh, E3, Rabs_pos_eq; lra.
+    + change (horner_partial [1%float; 0x1.999999999999ap-4%float; 3%float] 0.5%float 1)
+        with (3 * 0.5 + 0x1.999999999999ap-4)%float.
+      rewrite Eh, Rabs_pos_eq; lra.
+  - cbn [length Nat.sub Nat.mul Nat.add INR]. pose proof u64_small. lra.
+Qed.
+
+Theorem peval_forward_error_float : forall (p : list PrimFloat.float) (x r : PrimFloat.float),
+  peval (A := AF) p x = Ok r -> ffinite r ->
+  (forall k, (k < length p - 1)%nat -> no_underflow (FR (horner_partial p x k) * FR x)%R) ->
+  (INR (2 * (length p - 1)) * u64 < 1)%R ->
+  (Rabs (FR r - Rsum (length p) (fun i => FR (nth i p 0%float) * FR x ^ i))
+     <= g64 (2 * (length p - 1)) * Rsum (length p) (fun i => Rabs (FR (nth i p 0%float)) * Rabs (FR x) ^ i))%R.
+Proof. exact peval_forward_error_float_lemma. Qed.
+Check peval_forward_error_float : forall (p : list PrimFloat.float) (x r : PrimFloat.float),
+  peval (A := AF) p x = Ok r -> ffinite r ->
+  (forall k, (k < length p - 1)%nat -> no_underflow (FR (horner_partial p x k) * FR x)%R) ->
+  (INR (2 * (length p - 1)) * u64 < 1)%R ->
+  (Rabs (FR r - Rsum (length p) (fun i => FR (nth i p 0%float) * FR x ^ i))
+     <= g64 (2 * (length p - 1)) * Rsum (length p) (fun i => Rabs (FR (nth i p 0%float)) * Rabs (FR x) ^ i))%R.
+Print Assumptions peval_forward_error_float.
+Example peval_forward_error_float_nonvacuous :   (* exactly representable data: 1 + 2x + 3x^2 at 0.5 *)
+  let p := [1%float; 2%float; 3%float] in let x := 0.5%float in
+  (exists r, peval (A := AF) p x = Ok r /\ ffinite r) /\ (INR (2 * (length p - 1)) * u64 < 1)%R.
+Proof.
+  cbn zeta. split; [eexists; split; [reflexivity|apply ffinite_SF; reflexivity]|].
+  cbn [length Nat.sub Nat.mul Nat.add INR]. pose proof u64_small. lra.
+Qed.
